@@ -43,6 +43,7 @@ type FlowOpts struct {
 	Generations  int  // incarnations (1: no restart)
 	FaultFreeAfterStop bool
 	StopW        int // weight of the environment action "stop the process"
+	StopWhenPublished bool // the incarnation stops (at rest) once every publish call has returned
 	Closers      int    // Close/Disconnect invocations
 	CloserMix    [4]int // Close, Disconnect(nil), Disconnect(open quit), Disconnect(closed quit)
 	CloserW      int    // weight of starting the first closer
@@ -100,6 +101,7 @@ type Flow struct {
 	Pubs []*Pub
 	byTopic map[string]*Pub
 	byID    map[uint16]*Pub
+	handed  map[uint32][]HandedRef
 
 	pubTasksLive int
 	reqTasksLive int
@@ -129,6 +131,10 @@ type Flow struct {
 	LastRSReturn int
 	InSent       int // application messages the broker has been given so far
 	Owned        map[uint16]int // inbound exactly-once identifiers whose marker is stored -> step of the Save
+	Damage     []DamageRec
+	HoldFinalAcks bool
+	LoadDamage int // Load results altered in flight
+	lastSeq    uint64
 	Closers    []*Closer
 	ClosedAt   int // step at which the first Close/Disconnect returned
 	ClosedTime time.Duration
@@ -208,6 +214,13 @@ func (f *Flow) OnDisk(op *DiskOp) {
 			}
 		case 'D':
 			delete(f.Owned, id)
+		}
+	}
+	if op.Kind == 'S' && op.Effect {
+		for _, m := range f.Mon {
+			if c15, ok := m.(*monC15); ok {
+				c15.OnSave(f, op)
+			}
 		}
 	}
 	switch op.Kind {
@@ -553,6 +566,27 @@ func (f *Flow) pollExchanges() {
 	}
 }
 
+// HandedRef is a broker packet the client has read completely.
+type HandedRef struct {
+	C        *Conn
+	Idx      int // index in C.Sent
+	SentStep int
+	HandStep int
+}
+
+// OnHanded indexes broker packets by type and identifier as the client reads
+// them.
+func (f *Flow) OnHanded(c *Conn, idx int) {
+	sp := &c.Sent[idx]
+	key := uint32(sp.Type)<<16 | uint32(sp.ID)
+	f.handed[key] = append(f.handed[key], HandedRef{C: c, Idx: idx, SentStep: sp.Step, HandStep: c.HandStep[idx]})
+}
+
+// HandedAcks lists the broker packets of a type and identifier handed over.
+func (f *Flow) HandedAcks(typ byte, id uint16) []HandedRef {
+	return f.handed[uint32(typ)<<16|uint32(id)]
+}
+
 // finalAckHanded reports whether the broker's final acknowledgement for pb was
 // completely read by the client.
 func (f *Flow) finalAckHanded(pb *Pub) bool {
@@ -560,27 +594,25 @@ func (f *Flow) finalAckHanded(pb *Pub) bool {
 	if pb.QoS == 2 {
 		want = PUBCOMP
 	}
-	for _, c := range f.W.AllConns {
-		for i := range c.Sent {
-			sp := &c.Sent[i]
-			if sp.Type == want && sp.ID == pb.ID && sp.Step >= pb.Invoke && c.Handed(sp.End) {
-				return true
-			}
+	return f.ackHanded(want, pb.ID, pb.Invoke)
+}
+
+func (f *Flow) ackHanded(typ byte, id uint16, since int) bool {
+	for _, h := range f.HandedAcks(typ, id) {
+		if h.SentStep >= since {
+			return true
 		}
 	}
 	return false
 }
 
-func (f *Flow) ackHanded(typ byte, id uint16, since int) bool {
-	for _, c := range f.W.AllConns {
-		for i := range c.Sent {
-			sp := &c.Sent[i]
-			if sp.Type == typ && sp.ID == id && sp.Step >= since && c.Handed(sp.End) {
-				return true
-			}
-		}
+// recentConns are the connections whose state can still change.
+func (f *Flow) recentConns() []*Conn {
+	all := f.W.AllConns
+	if len(all) > 4 {
+		return all[len(all)-4:]
 	}
-	return false
+	return all
 }
 
 func (f *Flow) stepHook() {
@@ -588,7 +620,7 @@ func (f *Flow) stepHook() {
 	s := f.S
 	// input on connections that no longer work either reaches the broker
 	// or is lost
-	for _, c := range w.AllConns {
+	for _, c := range f.recentConns() {
 		if (c.closedLocal || c.Broken != 0) && w.Broker.Pending(c) {
 			if w.Tape.Flip("lose", 400) {
 				w.Faults["unread_input_lost"]++
@@ -640,7 +672,7 @@ func (f *Flow) env() []Action {
 	w := f.W
 	s := f.S
 	var acts []Action
-	for _, c := range s.conns {
+	for _, c := range f.recentConns() {
 		c := c
 		if c.Alive() && w.Broker.Pending(c) {
 			acts = append(acts, Action{Name: "broker-recv", Weight: 30, Run: func() { w.Broker.Consume(c) }})
@@ -671,7 +703,13 @@ func (f *Flow) env() []Action {
 			s.stop()
 		}})
 	}
-	if c := s.Cur(); f.InSent < f.O.Inbound && f.C != nil && c != nil && w.Broker.SessionOf(c) != nil {
+	// the broker has messages for the client once its session exists (in
+	// strict runs only while connected: a clean session would drop them)
+	sessOK := !f.StrictInbound
+	if c := s.Cur(); c != nil && w.Broker.SessionOf(c) != nil {
+		sessOK = true
+	}
+	if f.InSent < f.O.Inbound && f.C != nil && sessOK {
 		acts = append(acts, Action{Name: "broker-publish", Weight: 6, Run: f.brokerPublish})
 	}
 	return acts
@@ -725,6 +763,15 @@ func (f *Flow) brokerPublish() {
 	}
 }
 
+func (f *Flow) wireInGen(pb *Pub, gen int) bool {
+	for _, id := range pb.WireConns {
+		if f.W.AllConns[id].Gen == gen {
+			return true
+		}
+	}
+	return false
+}
+
 // AdoptedGen is whether the incarnation came from AdoptSession.
 func (f *Flow) AdoptedGen(gen int) bool { return f.adopted[gen] }
 
@@ -757,6 +804,10 @@ func (f *Flow) goalReached() bool {
 			// accepted by an earlier incarnation: done when its record
 			// is gone again
 			if pb.Resumed && !pb.Deleted {
+				if f.DamagedGen[f.W.Gen] && !f.wireInGen(pb, f.W.Gen) {
+					// abandoned by AdoptSession because of the damage
+					continue
+				}
 				return false
 			}
 			continue
@@ -796,7 +847,18 @@ func (f *Flow) done() bool {
 	if f.QStartStep == 0 {
 		return false
 	}
+	if f.O.StopWhenPublished && f.W.Gen < f.O.Generations {
+		// let what is under way settle, then stop at rest
+		if f.W.Steps-f.QStartStep > 60 {
+			f.S.stop()
+			return true
+		}
+		return false
+	}
 	if f.goalReached() {
+		if f.W.Gen < f.O.Generations {
+			f.S.stop() // a stop at rest
+		}
 		return true
 	}
 	w := f.W
